@@ -4,7 +4,10 @@ From God Require Import Base.Prelude C18.Conc C18.Spec C18.Model.
 Import POOL.
 
 Record PI (limit : Z) (s : state) : Prop := mkPI {
-  p_cnt : created s = (ncreate s - ndestroy s)%Z /\ (created s <= limit)%Z;
+  p_lock1 : forall t, holds (t_pc (ts s t)) = true -> lock s = Some t;
+  p_lock2 : forall t, lock s = Some t -> holds (t_pc (ts s t)) = true;
+  p_cnt : created s = (ncreate s + nleak s - ndestroy s)%Z /\ (created s <= limit)%Z /\ (0 <= nleak s)%Z /\
+          (forall t, t_pc (ts s t) = GCb -> (1 <= nleak s)%Z);
   p_hold : forall t r, In r (holding (ts s t)) -> loc s r = 3 + t;
   p_head : forall r lu, In (r, lu) (head s) -> loc s r = 1;
   p_nd_head : NoDup (map fst (head s));
@@ -13,101 +16,164 @@ Record PI (limit : Z) (s : state) : Prop := mkPI {
 }.
 
 Lemma pinit limit scripts : (0 <= limit)%Z -> PI limit (init scripts).
-Proof. intro H. constructor; simpl; intros; try contradiction; auto; try constructor; lia. Qed.
+Proof. intro H. constructor; simpl; intros; try contradiction; try discriminate; auto; try constructor; try lia. repeat split; try lia. intros; discriminate. Qed.
 
 Ltac pcase u t :=
   let E := fresh "E" in
   destruct (Nat.eq_dec u t) as [E|E];
   [ try rewrite !E in *; rewrite ?upd_same in * | rewrite ?(upd_other _ _ _ _ E) in * ].
 
-(* steps that move no resource *)
+(* steps that move no resource and change no counter *)
 Lemma PI_frame limit s s' t :
   PI limit s ->
-  created s' = created s -> ncreate s' = ncreate s -> ndestroy s' = ndestroy s ->
+  created s' = created s -> ncreate s' = ncreate s -> ndestroy s' = ndestroy s -> nleak s' = nleak s ->
   head s' = head s -> nextres s' = nextres s -> loc s' = loc s ->
   (forall u, u <> t -> ts s' u = ts s u) ->
   holding (ts s' t) = holding (ts s t) ->
+  let p := t_pc (ts s t) in let p' := t_pc (ts s' t) in
+  (p' = GCb -> p = GCb) ->
+  ((holds p' = true /\ lock s' = Some t /\ (lock s = None \/ lock s = Some t)) \/
+   (holds p' = false /\ ((holds p = true /\ lock s' = None) \/ (holds p = false /\ lock s' = lock s)))) ->
   PI limit s'.
 Proof.
-  intros [C H Hd N1 N2 F] E1 E2 E3 E4 E5 E6 Ets Eh.
-  constructor; rewrite ?E1, ?E2, ?E3, ?E4, ?E5, ?E6; auto.
+  intros [L1 L2 C H Hd N1 N2 F] E1 E2 E3 E3' E4 E5 E6 Ets Eh p p' Hcb Hlock.
+  constructor; rewrite ?E1, ?E2, ?E3, ?E3', ?E4, ?E5, ?E6; auto.
+  - intros u Hu. destruct (Nat.eq_dec u t) as [->|Hne].
+    + fold p' in Hu. destruct Hlock as [(A & B & _)|(A & _)]; congruence.
+    + rewrite (Ets _ Hne) in Hu. pose proof (L1 _ Hu) as L1u.
+      destruct Hlock as [(A & B & [D|D])|(A & [(B & D)|(B & D)])]; try congruence.
+      pose proof (L1 t B). congruence.
+  - intros u Hu. destruct (Nat.eq_dec u t) as [->|Hne].
+    + fold p'. destruct Hlock as [(A & B & D)|(A & [(B & D)|(B & D)])]; try congruence.
+      rewrite D in Hu. specialize (L2 _ Hu). fold p in L2. congruence.
+    + rewrite (Ets _ Hne). apply L2. destruct Hlock as [(A & B & D)|(A & [(B & D)|(B & D)])]; congruence.
+  - destruct C as (C1 & C2 & C3 & C4). repeat split; auto. intros u. destruct (Nat.eq_dec u t) as [->|Hne].
+    + fold p'. intro A. apply (C4 t). apply Hcb. assumption.
+    + rewrite (Ets _ Hne). apply C4.
   - intros u r. destruct (Nat.eq_dec u t) as [->|Hne]; [rewrite Eh|rewrite (Ets _ Hne)]; apply H.
   - intros u. destruct (Nat.eq_dec u t) as [->|Hne]; [rewrite Eh|rewrite (Ets _ Hne)]; apply N2.
 Qed.
 
 Ltac pframe HI t Hpc :=
-  eapply (PI_frame _ _ _ t HI); cbn [lock created head waiters nextres now ts trace loc ncreate ndestroy];
-  try reflexivity; [ intros ? ?; apply upd_other; assumption | rewrite upd_same; unfold holding; rewrite ?Hpc; cbn [t_pc t_held]; try reflexivity ].
+  eapply (PI_frame _ _ _ t HI); cbn [lock created head waiters nextres now open ts trace loc ncreate ndestroy nleak];
+  try reflexivity;
+  [ intros ? ?; apply upd_other; assumption
+  | rewrite upd_same; unfold holding; rewrite ?Hpc; cbn [t_pc t_held setpc]; try reflexivity
+  | rewrite ?upd_same, ?Hpc; cbn [t_pc setpc]; try (intros; discriminate)
+  | rewrite ?upd_same, ?Hpc; cbn [t_pc setpc holds] ].
+
+Ltac plk HI t Hpc :=
+  let L := fresh "L" in
+  first [ solve [right; split; [reflexivity|]; right; split; reflexivity]
+        | solve [left; repeat split; auto]
+        | (pose proof (p_lock1 _ _ HI t) as L; rewrite Hpc in L; specialize (L eq_refl);
+           first [ solve [left; repeat split; auto] | solve [right; split; [reflexivity|]; left; split; reflexivity] ]) ].
+
+(* a step of t from a lock-holding pc to a lock-holding pc, with the lock untouched *)
+Lemma keep_lock limit s t (x' : tstate) :
+  PI limit s -> holds (t_pc (ts s t)) = true -> holds (t_pc x') = true ->
+  (forall u, holds (t_pc (upd (ts s) t x' u)) = true -> lock s = Some u) /\
+  (forall u, lock s = Some u -> holds (t_pc (upd (ts s) t x' u)) = true).
+Proof.
+  intros HI Ht Hx. split; intros u Hu.
+  - destruct (Nat.eq_dec u t) as [->|Hne]; [apply (p_lock1 _ _ HI); assumption|].
+    rewrite upd_other in Hu by assumption. apply (p_lock1 _ _ HI); assumption.
+  - destruct (Nat.eq_dec u t) as [->|Hne]; [rewrite upd_same; assumption|].
+    rewrite upd_other by assumption. apply (p_lock2 _ _ HI); assumption.
+Qed.
 
 Lemma pstep_I limit maxage l s s' : PI limit s -> step limit maxage l s = Some s' -> PI limit s'.
 Proof.
-  intros HI Hs. destruct l as [t|g|d]; [| discriminate | injection Hs as <-; destruct HI; constructor; simpl; auto ].
+  intros HI Hs. destruct l as [t|g|d]; [| injection Hs as <-; destruct HI; constructor; simpl; auto | injection Hs as <-; destruct HI; constructor; simpl; auto ].
   unfold step in Hs.
   destruct (t_pc (ts s t)) eqn:Hpc.
   - (* Idle *) destruct (t_todo (ts s t)) as [|o rest]; [discriminate|].
     destruct (o_code o).
-    + injection Hs as <-. pframe HI t Hpc.
-    + destruct (t_held (ts s t)) as [|r h'] eqn:Hh; injection Hs as <-; pframe HI t Hpc; rewrite Hh; reflexivity.
-  - (* GLock *) destruct (lock s); [discriminate|]. injection Hs as <-. pframe HI t Hpc.
+    + injection Hs as <-. pframe HI t Hpc. plk HI t Hpc.
+    + destruct (t_held (ts s t)) as [|r h'] eqn:Hh; injection Hs as <-; pframe HI t Hpc; try (rewrite Hh; reflexivity); plk HI t Hpc.
+  - (* GLock *) destruct (lock s) eqn:Hl; [discriminate|]. injection Hs as <-. pframe HI t Hpc. plk HI t Hpc.
   - (* GLoop *)
-    pose proof HI as [[C1 C2] H Hd N1 N2 F].
+    pose proof HI as [L1 L2 (C1 & C2 & C3 & C4) H Hd N1 N2 F].
+    assert (Hhold : holds (t_pc (ts s t)) = true) by (rewrite Hpc; reflexivity).
     destruct (head s) as [|[r lu] rest] eqn:Hhead.
     + destruct (Z.ltb (created s) limit) eqn:Hlt.
-      * (* create *) apply Z.ltb_lt in Hlt. injection Hs as <-.
-        assert (Hr0 : loc s (nextres s) = 0) by (apply F; lia).
-        constructor; cbn [lock created head waiters nextres now ts trace loc ncreate ndestroy].
-        -- split; lia.
-        -- intros u r. pcase u t.
-           ++ unfold holding; cbn [t_pc t_held]. intros [<-|Hin]; [apply upd_same|].
-              assert (Hl : loc s r = 3 + t) by (apply H; unfold holding; rewrite Hpc; assumption).
-              rewrite upd_other; [assumption|]. intro; subst r. lia.
-           ++ intro Hin. pose proof (H _ _ Hin) as Hl. rewrite upd_other; [assumption|]. intro; subst r. lia.
-        -- intros r lu []. 
-        -- constructor.
-        -- intros u. pcase u t; [|apply N2]. unfold holding; cbn [t_pc t_held]. constructor.
-           ++ intro Hin. assert (Hl : loc s (nextres s) = 3 + t) by (apply H; unfold holding; rewrite Hpc; assumption). lia.
-           ++ specialize (N2 t). unfold holding in N2. rewrite Hpc in N2. assumption.
-        -- intros r Hr. rewrite upd_other by lia. apply F. lia.
-      * (* wait *) injection Hs as <-. rewrite <- Hhead. pframe HI t Hpc.
-    + destruct (expired maxage lu (now s)) eqn:Hex; injection Hs as <-.
+      * (* p.created++, then create() *) apply Z.ltb_lt in Hlt. injection Hs as <-.
+        destruct (keep_lock limit s t (setpc (ts s t) GCb) HI Hhold eq_refl) as [K1 K2].
+        constructor; cbn [lock created head waiters nextres now open ts trace loc ncreate ndestroy nleak]; auto.
+        -- repeat split; lia.
+        -- intros u r. pcase u t; [|apply H]. unfold holding; cbn [t_pc t_held setpc]. intro Hin. apply H. unfold holding. rewrite Hpc. assumption.
+        -- intros u. pcase u t; [|apply N2]. specialize (N2 t). unfold holding in *. rewrite Hpc in N2. cbn [t_pc t_held setpc]. assumption.
+      * (* wait *) injection Hs as <-. rewrite <- Hhead. pframe HI t Hpc. plk HI t Hpc.
+    + assert (Hr1 : loc s r = 1) by (apply (Hd r lu); left; reflexivity).
+      simpl in N1. apply NoDup_cons_iff in N1 as [Nr N1].
+      destruct (expired maxage lu (now s)) eqn:Hex; injection Hs as <-.
       * (* destroy *)
-        assert (Hr1 : loc s r = 1) by (apply (Hd r lu); left; reflexivity).
-        simpl in N1. apply NoDup_cons_iff in N1 as [Nr N1].
-        constructor; cbn [lock created head waiters nextres now ts trace loc ncreate ndestroy].
-        -- split; lia.
-        -- intros u r' Hin. pose proof (H _ _ Hin) as Hl. rewrite upd_other; [assumption|]. intro; subst r'. lia.
+        assert (Hx : holds (t_pc (setpc (ts s t) (if Nat.eqb (t_dpan (ts s t)) 0 then GLoop else GPanic))) = true)
+          by (cbn [setpc t_pc]; destruct (Nat.eqb (t_dpan (ts s t)) 0); reflexivity).
+        destruct (keep_lock limit s t _ HI Hhold Hx) as [K1 K2].
+        constructor; cbn [lock created head waiters nextres now open ts trace loc ncreate ndestroy nleak]; auto.
+        -- repeat split; try lia. intros u. pcase u t; [|apply C4]. cbn [setpc t_pc]. destruct (Nat.eqb (t_dpan (ts s t)) 0); discriminate.
+        -- intros u r' Hin. assert (Hin' : In r' (holding (ts s u))).
+           { pcase u t; [|assumption]. unfold holding in *. rewrite Hpc. cbn [setpc t_pc t_held] in Hin.
+             destruct (Nat.eqb (t_dpan (ts s t)) 0); assumption. }
+           pose proof (H _ _ Hin') as Hl. rewrite upd_other; [assumption|]. intro; subst r'. lia.
         -- intros r' lu' Hin. rewrite upd_other; [apply (Hd r' lu'); right; assumption|].
            intro; subst r'. apply Nr. apply in_map_iff. exists (r, lu'). auto.
-        -- assumption.
-        -- apply N2.
+        -- intros u. pcase u t; [|apply N2]. specialize (N2 t). unfold holding in *. rewrite Hpc in N2. cbn [setpc t_pc t_held].
+           destruct (Nat.eqb (t_dpan (ts s t)) 0); assumption.
         -- intros r' Hr'. rewrite upd_other; [apply F; assumption|]. intro; subst r'. specialize (F _ Hr'). lia.
       * (* hand out *)
-        assert (Hr1 : loc s r = 1) by (apply (Hd r lu); left; reflexivity).
-        simpl in N1. apply NoDup_cons_iff in N1 as [Nr N1].
-        constructor; cbn [lock created head waiters nextres now ts trace loc ncreate ndestroy].
-        -- split; lia.
+        destruct (keep_lock limit s t (setpc (ts s t) (GRet r)) HI Hhold eq_refl) as [K1 K2].
+        constructor; cbn [lock created head waiters nextres now open ts trace loc ncreate ndestroy nleak]; auto.
+        -- repeat split; try lia. intros u. pcase u t; [discriminate|apply C4].
         -- intros u r'. pcase u t.
-           ++ unfold holding; cbn [t_pc t_held]. intros [<-|Hin]; [apply upd_same|].
+           ++ unfold holding; cbn [t_pc t_held setpc]. intros [<-|Hin]; [apply upd_same|].
               assert (Hl : loc s r' = 3 + t) by (apply H; unfold holding; rewrite Hpc; assumption).
               rewrite upd_other; [assumption|]. intro; subst r'. lia.
            ++ intro Hin. pose proof (H _ _ Hin) as Hl. rewrite upd_other; [assumption|]. intro; subst r'. lia.
         -- intros r' lu' Hin. rewrite upd_other; [apply (Hd r' lu'); right; assumption|].
            intro; subst r'. apply Nr. apply in_map_iff. exists (r, lu'). auto.
-        -- assumption.
-        -- intros u. pcase u t; [|apply N2]. unfold holding; cbn [t_pc t_held]. constructor.
+        -- intros u. pcase u t; [|apply N2]. unfold holding; cbn [t_pc t_held setpc]. constructor.
            ++ intro Hin. assert (Hl : loc s r = 3 + t) by (apply H; unfold holding; rewrite Hpc; assumption). lia.
            ++ specialize (N2 t). unfold holding in N2. rewrite Hpc in N2. assumption.
         -- intros r' Hr'. rewrite upd_other; [apply F; assumption|]. intro; subst r'. specialize (F _ Hr'). lia.
-  - (* GWait *) destruct (existsb (Nat.eqb t) (waiters s)); [discriminate|]. injection Hs as <-. pframe HI t Hpc.
-  - (* GRelock *) destruct (lock s); [discriminate|]. injection Hs as <-. pframe HI t Hpc.
-  - (* GRet *) injection Hs as <-. pframe HI t Hpc.
-  - (* PLock *) destruct (lock s); [discriminate|]. injection Hs as <-. pframe HI t Hpc.
+  - (* GCb *) destruct (gate_open (open s) (t_gate (ts s t))); [|discriminate].
+    destruct (Nat.eqb (t_cpan (ts s t)) 0); injection Hs as <-.
+    + (* create() returns a new resource *)
+      pose proof HI as [L1 L2 (C1 & C2 & C3 & C4) H Hd N1 N2 F].
+      assert (Hhold : holds (t_pc (ts s t)) = true) by (rewrite Hpc; reflexivity).
+      destruct (keep_lock limit s t (setpc (ts s t) (GRet (nextres s))) HI Hhold eq_refl) as [K1 K2].
+      assert (Hr0 : loc s (nextres s) = 0) by (apply F; lia).
+      pose proof (C4 t Hpc) as Hn1.
+      constructor; cbn [lock created head waiters nextres now open ts trace loc ncreate ndestroy nleak]; auto.
+      * repeat split; try lia. intros u. pcase u t; [discriminate|]. intro A.
+        (* no other thread is inside create(): the lock is exclusive *)
+        exfalso. apply E. assert (lock s = Some u) by (apply L1; rewrite A; reflexivity).
+        assert (lock s = Some t) by (apply L1; assumption). congruence.
+      * intros u r. pcase u t.
+        -- unfold holding; cbn [t_pc t_held setpc]. intros [<-|Hin]; [apply upd_same|].
+           assert (Hl : loc s r = 3 + t) by (apply H; unfold holding; rewrite Hpc; assumption).
+           rewrite upd_other; [assumption|]. intro; subst r. lia.
+        -- intro Hin. pose proof (H _ _ Hin) as Hl. rewrite upd_other; [assumption|]. intro; subst r. lia.
+      * intros r lu Hin. pose proof (Hd _ _ Hin) as Hl. rewrite upd_other; [assumption|]. intro; subst r. lia.
+      * intros u. pcase u t; [|apply N2]. unfold holding; cbn [t_pc t_held setpc]. constructor.
+        -- intro Hin. assert (Hl : loc s (nextres s) = 3 + t) by (apply H; unfold holding; rewrite Hpc; assumption). lia.
+        -- specialize (N2 t). unfold holding in N2. rewrite Hpc in N2. assumption.
+      * intros r Hr. rewrite upd_other by lia. apply F. lia.
+    + (* create() panics *) pframe HI t Hpc. plk HI t Hpc.
+  - (* GWait *) destruct (existsb (Nat.eqb t) (waiters s)); [discriminate|]. injection Hs as <-. pframe HI t Hpc. plk HI t Hpc.
+  - (* GRelock *) destruct (lock s) eqn:Hl; [discriminate|]. injection Hs as <-. pframe HI t Hpc. plk HI t Hpc.
+  - (* GRet *) injection Hs as <-. pframe HI t Hpc. plk HI t Hpc.
+  - (* GPanic *) injection Hs as <-. pframe HI t Hpc. plk HI t Hpc.
+  - (* PLock *) destruct (lock s) eqn:Hl; [discriminate|]. injection Hs as <-. pframe HI t Hpc. plk HI t Hpc.
   - (* PPush *) injection Hs as <-.
-    pose proof HI as [[C1 C2] H Hd N1 N2 F].
+    pose proof HI as [L1 L2 (C1 & C2 & C3 & C4) H Hd N1 N2 F].
+    assert (Hhold : holds (t_pc (ts s t)) = true) by (rewrite Hpc; reflexivity).
+    destruct (keep_lock limit s t (mkt PSignal (t_cpan (ts s t)) (t_gate (ts s t)) (t_dpan (ts s t)) (t_todo (ts s t)) ((x, 0) :: t_res (ts s t)) (t_held (ts s t))) HI Hhold eq_refl) as [K1 K2].
     assert (Hx : loc s x = 3 + t) by (apply H; unfold holding; rewrite Hpc; left; reflexivity).
     pose proof (N2 t) as N2t. unfold holding in N2t. rewrite Hpc in N2t. apply NoDup_cons_iff in N2t as [Nx N2t].
-    constructor; cbn [lock created head waiters nextres now ts trace loc ncreate ndestroy].
-    + split; lia.
+    constructor; cbn [lock created head waiters nextres now open ts trace loc ncreate ndestroy nleak]; auto.
+    + repeat split; try lia. intros u. pcase u t; [discriminate|apply C4].
     + intros u r. pcase u t.
       * unfold holding; cbn [t_pc t_held]. intro Hin.
         rewrite upd_other; [apply H; unfold holding; rewrite Hpc; right; assumption|]. intro; subst r. contradiction.
@@ -118,19 +184,20 @@ Proof.
       specialize (Hd _ _ Hin). lia.
     + intros u. pcase u t; [|apply N2]. unfold holding; cbn [t_pc t_held]. assumption.
     + intros r Hr. rewrite upd_other; [apply F; assumption|]. intro; subst r. specialize (F _ Hr). lia.
-  - (* PSignal *) injection Hs as <-. pframe HI t Hpc.
-  - (* PUnlock *) injection Hs as <-. pframe HI t Hpc.
+  - (* PSignal *) injection Hs as <-. pframe HI t Hpc. plk HI t Hpc.
+  - (* PUnlock *) injection Hs as <-. pframe HI t Hpc. plk HI t Hpc.
 Qed.
 
 Lemma prun_I limit maxage scripts sched : (0 <= limit)%Z ->
   PI limit (run (step limit maxage) sched (init scripts)).
 Proof. intro H. apply run_inv; [apply pstep_I|apply pinit; assumption]. Qed.
 
-(* created = #create - #destroy <= limit *)
+(* live resources = #(create returned) - #destroy <= p.created <= limit; p.created additionally counts
+   create() calls that are running or panicked (the code increments before calling create) *)
 Lemma pool_bound limit maxage scripts sched : (0 <= limit)%Z ->
   let s := run (step limit maxage) sched (init scripts) in
-  created s = (ncreate s - ndestroy s)%Z /\ (ncreate s - ndestroy s <= limit)%Z.
-Proof. intros H s. destruct (prun_I limit maxage scripts sched H) as [[C1 C2] _ _ _ _ _]. subst s. lia. Qed.
+  created s = (ncreate s + nleak s - ndestroy s)%Z /\ (0 <= nleak s)%Z /\ (ncreate s - ndestroy s <= limit)%Z.
+Proof. intros H s. destruct (prun_I limit maxage scripts sched H) as [_ _ (C1 & C2 & C3 & _) _ _ _ _ _]. subst s. lia. Qed.
 
 (* a resource is never in the hands of two threads, never both held and idle, never twice in the idle list *)
 Lemma pool_single_holder limit maxage scripts sched : (0 <= limit)%Z ->
@@ -139,23 +206,35 @@ Lemma pool_single_holder limit maxage scripts sched : (0 <= limit)%Z ->
   (forall t r lu, In r (holding (ts s t)) -> ~ In (r, lu) (head s)) /\
   NoDup (map fst (head s)) /\ (forall t, NoDup (holding (ts s t))).
 Proof.
-  intros H s. destruct (prun_I limit maxage scripts sched H) as [_ Hh Hd N1 N2 _]. subst s.
+  intros H s. destruct (prun_I limit maxage scripts sched H) as [_ _ _ Hh Hd N1 N2 _]. subst s.
   repeat split; auto.
   - intros t u r A B. pose proof (Hh _ _ A). pose proof (Hh _ _ B). lia.
   - intros t r lu A B. pose proof (Hh _ _ A). pose proof (Hd _ _ B). lia.
 Qed.
 
-(* an idle resource older than maxAge met by Get is destroyed, not handed out; and a destroyed
-   resource is nowhere (neither idle nor held) ever after *)
+(* the pool's mutex is exclusive; in particular the create/destroy callbacks run while no other
+   Get/Put is inside the pool *)
+Lemma pool_mutex limit maxage scripts sched t u : (0 <= limit)%Z ->
+  let s := run (step limit maxage) sched (init scripts) in
+  holds (t_pc (ts s t)) = true -> holds (t_pc (ts s u)) = true -> t = u.
+Proof.
+  intros H s A B. destruct (prun_I limit maxage scripts sched H) as [L1 _ _ _ _ _ _ _]. subst s.
+  pose proof (L1 _ A). pose proof (L1 _ B). congruence.
+Qed.
+
+(* an idle resource older than maxAge met by Get is destroyed, not handed out (Get then continues,
+   or is unwound if the destroy callback panics); and a destroyed resource is nowhere ever after *)
 Lemma pool_max_age_step limit maxage s t r lu rest :
   t_pc (ts s t) = GLoop -> head s = (r, lu) :: rest -> 0 < maxage -> lu + maxage < now s ->
   exists s', step limit maxage (Thr t) s = Some s' /\ loc s' r = 2 /\ head s' = rest /\
-             t_pc (ts s' t) = GLoop /\ ts s' = ts s /\ ndestroy s' = (ndestroy s + 1)%Z /\ created s' = (created s - 1)%Z.
+             t_pc (ts s' t) = (if Nat.eqb (t_dpan (ts s t)) 0 then GLoop else GPanic) /\
+             t_held (ts s' t) = t_held (ts s t) /\ t_res (ts s' t) = t_res (ts s t) /\
+             ndestroy s' = (ndestroy s + 1)%Z /\ created s' = (created s - 1)%Z.
 Proof.
   intros Hpc Hh Hm Hlt. unfold step. rewrite Hpc, Hh. unfold expired.
   assert (Nat.ltb 0 maxage = true) as -> by (apply Nat.ltb_lt; assumption).
   assert (Nat.ltb (lu + maxage) (now s) = true) as -> by (apply Nat.ltb_lt; assumption).
-  simpl. eexists. split; [reflexivity|]. simpl. rewrite upd_same. repeat split; auto.
+  simpl. eexists. split; [reflexivity|]. simpl. rewrite !upd_same. repeat split; auto.
 Qed.
 
 Lemma pool_not_expired_step limit maxage s t r lu rest s' :
@@ -165,33 +244,37 @@ Proof.
   intros Hpc Hh Hs Hr. unfold step in Hs. rewrite Hpc, Hh in Hs. unfold expired in Hs.
   destruct (Nat.ltb 0 maxage) eqn:E1; [|apply Nat.ltb_ge in E1; left; lia].
   destruct (Nat.ltb (lu + maxage) (now s)) eqn:E2; [|apply Nat.ltb_ge in E2; right; lia].
-  simpl in Hs. injection Hs as <-. simpl in Hr. rewrite Hpc in Hr. discriminate.
+  simpl in Hs. injection Hs as <-. simpl in Hr. rewrite upd_same in Hr. simpl in Hr.
+  destruct (Nat.eqb (t_dpan (ts s t)) 0); discriminate.
 Qed.
 
 Lemma pool_destroyed_gone limit maxage scripts sched r : (0 <= limit)%Z ->
   let s := run (step limit maxage) sched (init scripts) in
   loc s r = 2 -> (forall t, ~ In r (holding (ts s t))) /\ (forall lu, ~ In (r, lu) (head s)).
 Proof.
-  intros H s Hl. destruct (prun_I limit maxage scripts sched H) as [_ Hh Hd _ _ _]. subst s.
+  intros H s Hl. destruct (prun_I limit maxage scripts sched H) as [_ _ _ Hh Hd _ _ _]. subst s.
   split; [intros t A; specialize (Hh _ _ A); lia | intros lu A; specialize (Hd _ _ A); lia].
 Qed.
 
 (* destroyed is final: loc never leaves 2 *)
 Lemma pool_destroyed_stable limit maxage l s s' r : PI limit s -> step limit maxage l s = Some s' -> loc s r = 2 -> loc s' r = 2.
 Proof.
-  intros HI Hs Hl. destruct HI as [_ Hh Hd _ _ F].
-  destruct l as [t|g|d]; [| discriminate | injection Hs as <-; assumption ].
+  intros HI Hs Hl. destruct HI as [_ _ _ Hh Hd _ _ F].
+  destruct l as [t|g|d]; [| injection Hs as <-; assumption | injection Hs as <-; assumption ].
   unfold step in Hs. destruct (t_pc (ts s t)) eqn:Hpc.
   - destruct (t_todo (ts s t)) as [|o rest]; [discriminate|]. destruct (o_code o); [injection Hs as <-; assumption|].
     destruct (t_held (ts s t)); injection Hs as <-; assumption.
   - destruct (lock s); [discriminate|]. injection Hs as <-; assumption.
   - destruct (head s) as [|[r' lu] rest] eqn:Hhead.
-    + destruct (Z.ltb (created s) limit); injection Hs as <-; [|assumption]. simpl.
-      rewrite upd_other; [assumption|]. intro; subst r. rewrite F in Hl by lia. discriminate.
+    + destruct (Z.ltb (created s) limit); injection Hs as <-; assumption.
     + assert (loc s r' = 1) by (apply (Hd r' lu); left; reflexivity).
       destruct (expired maxage lu (now s)); injection Hs as <-; simpl; (destruct (Nat.eq_dec r r') as [->|Hne]; [lia|rewrite upd_other by assumption; assumption]).
+  - destruct (gate_open (open s) (t_gate (ts s t))); [|discriminate].
+    destruct (Nat.eqb (t_cpan (ts s t)) 0); injection Hs as <-; [|assumption]. simpl.
+    rewrite upd_other; [assumption|]. intro; subst r. rewrite F in Hl by lia. discriminate.
   - destruct (existsb (Nat.eqb t) (waiters s)); [discriminate|]. injection Hs as <-; assumption.
   - destruct (lock s); [discriminate|]. injection Hs as <-; assumption.
+  - injection Hs as <-; assumption.
   - injection Hs as <-; assumption.
   - destruct (lock s); [discriminate|]. injection Hs as <-; assumption.
   - injection Hs as <-. simpl. assert (loc s x = 3 + t) by (apply Hh; unfold holding; rewrite Hpc; left; reflexivity).
